@@ -108,7 +108,17 @@ func (s *RPCServer) Txn(ctx context.Context, txn *etcdserverpb.TxnRequest) (*etc
 			failedKey = string(put.Key)
 		}
 	} else if rev, key, ok := isDelete(txn); ok {
-		response, err = s.backend.Delete(ctx, key, rev)
+		if len(txn.Compare) == 1 && rev == 0 {
+			// comparing with mod revision 0 expects that the key does not exist,
+			// while revision 0 means deleting without any condition for backend
+			response, err = s.deleteAbsent(ctx, key)
+		} else {
+			response, err = s.backend.Delete(ctx, key, rev)
+			if err == nil && len(txn.Compare) == 0 {
+				// a transaction without compare always takes the success branch, even if there is nothing to delete
+				response.Succeeded = true
+			}
+		}
 		methodTag = metrics.Tag("method", "delete")
 		if err != nil || !response.Succeeded {
 			failedKey = string(key)
@@ -140,6 +150,29 @@ func (s *RPCServer) Txn(ctx context.Context, txn *etcdserverpb.TxnRequest) (*etc
 		klog.ErrorS(err, "txn failed", "op", methodTag.Value, "key", failedKey)
 	}
 	return response, err
+}
+
+// deleteAbsent answers a delete which is guarded by `mod revision == 0`: it succeeds without any effect
+// if the key does not exist, otherwise it fails and returns the current kv as the failure branch does.
+func (s *RPCServer) deleteAbsent(ctx context.Context, key []byte) (*etcdserverpb.TxnResponse, error) {
+	get, err := s.backend.Get(ctx, &etcdserverpb.RangeRequest{Key: key})
+	if err != nil {
+		return nil, err
+	}
+	return &etcdserverpb.TxnResponse{
+		Header:    get.Header,
+		Succeeded: len(get.Kvs) == 0,
+		Responses: []*etcdserverpb.ResponseOp{
+			{
+				Response: &etcdserverpb.ResponseOp_ResponseRange{
+					ResponseRange: &etcdserverpb.RangeResponse{
+						Header: get.Header,
+						Kvs:    get.Kvs,
+					},
+				},
+			},
+		},
+	}, nil
 }
 
 func (s *RPCServer) Compact(ctx context.Context, r *etcdserverpb.CompactionRequest) (*etcdserverpb.CompactionResponse, error) {
